@@ -156,7 +156,7 @@ PROPS = {
     ),
     "C08": dict(
         modules=["Whawty.Props.C08"],
-        suites=[("hdrv", "c08"), ("hdrv", "c08k")],
+        suites=[("hdrv", "c08"), ("hdrv", "c08k"), ("hdrv", "c08r")],
         level_text="Persistence machine (file data durable at fsync, directory operations at fsync of the directory, any "
                    "subset of pending directory operations may survive, un-synced data is torn). crashAtomic_sound: the "
                    "Boolean checker implies the statement for EVERY system-call boundary and EVERY subset; "
